@@ -658,10 +658,9 @@ CLS = {"sgd": O.SGD, "adam": O.Adam, "adagrad": O.Adagrad}
 
 
 class DummySampler:
-    crng = np.array([], dtype=int)
-
-    def __init__(self, nd):
+    def __init__(self, nd, ncrng=0):
         self.nd = nd
+        self.crng = np.arange(ncrng)
 
     def function_sample(self, data):
         return np.zeros((1, self.nd), dtype=int), np.zeros(1), np.ones(1)
@@ -684,33 +683,73 @@ class ScriptedOracle:
         self.fs, self.gs = fs, gs
         self.fi = self.gi = 0
         self.boundary = []
+        self.calls = []
 
     def __call__(self, model, subs, vals, wgts, function_handle=None, gradient_handle=None,
                  lambda_check=True, crng=None):
         if gradient_handle is None:
             self.boundary.append([f.copy() for f in model.factor_matrices])
+            self.calls.append(("f", crng_list(crng)))
             v = self.fs[self.fi]
             self.fi += 1
             return v
+        self.calls.append(("g", crng_list(crng)))
         g = [np.array(a, dtype=float) for a in self.gs[self.gi]]
         self.gi += 1
         return g
 
 
+def crng_list(c):
+    """A correction range as a list of ints; None and the empty range both mean "no correction"."""
+    if c is None:
+        return []
+    return [int(x) for x in np.asarray(c).reshape(-1)]
+
+
+def crng_misuse(calls, sampler_crng):
+    """calls: [("f"|"g", crng list)] in call order.  Function-value estimates must carry no
+    correction range, gradient estimates exactly the sampler's."""
+    want = crng_list(sampler_crng)
+    for k, (what, c) in enumerate(calls):
+        if what == "f" and c:
+            return f"estimate call #{k} (function value) was given a correction range of {len(c)} entries"
+        if what == "g" and c != want:
+            return (f"estimate call #{k} (gradient) was given a correction range of {len(c)} entries, "
+                    f"the sampler's has {len(want)}")
+    return ""
+
+
+def sample_objective(fh, factors, sample):
+    """Σ w·f(x, m) on a recorded function sample, computed here from the loss handle and the model
+    entries at the sampled subscripts (no correction range, not the code's estimate())."""
+    subs, vals, wgts = sample
+    if subs.size == 0:
+        return 0.0
+    z = np.ones((subs.shape[0], np.asarray(factors[0]).shape[1]))
+    for k, A in enumerate(factors):
+        z = z * np.asarray(A, dtype=float)[subs[:, k], :]
+    return float(np.sum(wgts * fh(vals, z.sum(axis=1))))
+
+
 class RecordingOracle:
-    """Wraps the real `estimate`: records values, gradients and boundary models."""
+    """Wraps the real `estimate` (passes everything through): records values, gradients, boundary
+    models and the correction range every call was given."""
 
     def __init__(self, real):
         self.real = real
-        self.fs, self.gs, self.boundary = [], [], []
+        self.fs, self.gs, self.boundary, self.calls, self.fargs = [], [], [], [], []
 
     def __call__(self, model, subs, vals, wgts, function_handle=None, gradient_handle=None, **kw):
         r = self.real(model, subs, vals, wgts, function_handle, gradient_handle, **kw)
         if gradient_handle is None:
             self.boundary.append([f.copy() for f in model.factor_matrices])
             self.fs.append(float(r))
+            self.calls.append(("f", crng_list(kw.get("crng"))))
+            self.fargs.append((np.array(subs).copy(), np.asarray(vals, dtype=float).reshape(-1).copy(),
+                               np.asarray(wgts, dtype=float).reshape(-1).copy()))
         else:
             self.gs.append([np.array(a, dtype=float) for a in r])
+            self.calls.append(("g", crng_list(kw.get("crng"))))
         return r
 
 
@@ -863,7 +902,7 @@ class SolverScripted(Family):
                         g[0][0][0] = 1
                     gs.append(g)
                 solves.append({"shape": shape, "rank": rank, "init": init, "fs": [str(x) for x in fs], "gs": gs})
-            out.append({"kind": kind, "hyper": h, "lb": lb, "solves": solves})
+            out.append({"kind": kind, "hyper": h, "lb": lb, "solves": solves, "crng": rng.choice([0, 0, 1, 3])})
         return out
 
     # -- implementation ---------------------------------------------------
@@ -884,7 +923,7 @@ class SolverScripted(Family):
                 cfg_before = snapshot(opt)
                 with patched(O, "estimate", oracle), quiet():
                     m, info = opt.solve(init, data, _FH, _GH, -np.inf if lb is None else lb,
-                                        DummySampler(len(s["shape"])))
+                                        DummySampler(len(s["shape"]), case.get("crng", 0)))
                 fm = [x.copy() for x in m.factor_matrices]
                 return {"factors": [tolist(x) for x in fm], "f_est_trace": tolist(info["f_est_trace"]),
                         "step_trace": tolist(info["step_trace"]), "n_epoch": int(info["n_epoch"]),
@@ -892,6 +931,7 @@ class SolverScripted(Family):
                         "best_index": last_index_equal(oracle.boundary, fm),
                         "equal_indices": indices_equal(oracle.boundary, fm),
                         "fs_seen": list(oracle.fs[: oracle.fi]), "state": opt_state(kind, opt),
+                        "crng_misuse": crng_misuse(oracle.calls, np.arange(case.get("crng", 0))),
                         "cfg_changed": config_change(cfg_before, snapshot(opt), PER_SOLVE_STATE[kind])}
             r = call(f)
             results.append(r)
@@ -964,6 +1004,8 @@ class SolverScripted(Family):
                 what = spec_solve(h, lb, s["init"], r, feasible)
                 if not what and r["cfg_changed"]:
                     what = f"the solve changed the configuration of the solver object: {r['cfg_changed']}"
+                if not what:
+                    what = r["crng_misuse"]
                 if what:
                     return Verdict("violation", f"solve #{k + 1} on the shared object: {what}", sh, mk, None, tags)
                 if r["nfails"] > 0:
